@@ -21,7 +21,7 @@ pub struct Case {
     pub family: String,
 }
 
-pub fn check_bfs<D: Order + OutNeighbors>(g: &D, name: &str, m: &UModel, sources: &[usize]) -> Verdict {
+pub fn check_bfs<D: Order + OutNeighbors + Clone>(g: &D, name: &str, m: &UModel, sources: &[usize]) -> Verdict {
     let hops = m.hops(sources);
     let reachable: BTreeSet<usize> = hops.keys().copied().collect();
     let rd = |v: usize| hops.get(&v).map_or(-1, |&d| d as i128);
@@ -45,6 +45,8 @@ pub fn check_bfs<D: Order + OutNeighbors>(g: &D, name: &str, m: &UModel, sources
     if n <= 40 {
         crate::props::c02::protocol(&format!("Bfs<{name}>"), || Bfs::new(g, sources.iter().copied()), &seq)?;
         crate::props::c02::protocol(&format!("BfsDist<{name}>"), || BfsDist::new(g, sources.iter().copied()), &items)?;
+        crate::props::c02::clone_consistency(&format!("Bfs<{name}>"), || Bfs::new(g, sources.iter().copied()), seq.len())?;
+        crate::props::c02::clone_consistency(&format!("BfsDist<{name}>"), || BfsDist::new(g, sources.iter().copied()), items.len())?;
     }
     let dist = BfsDist::new(g, sources.iter().copied()).distances();
     ensure!(dist.len() == n, "BfsDist<{name}>::distances() has length {} for order {n}", dist.len());
